@@ -114,7 +114,7 @@ PROPS = {
         modules=[P + "C03"],
         theorems=[P + "C03." + t for t in ("no_lost_wakeup", "release_serves_head", "arrivals_at_tail", "cancelled_never_served", "cancel_keeps_invariant",
                                           "waiter_implies_full_seq", "wait_deadline", "wait_timeout_zero_is_none", "fifo_no_overtaking", "fifo_queue_order",
-                                          "wait_not_early", "wait_not_early_pending", "wait_not_early_reachable", "wait_prompt", "wait_only_shrinks")]
+                                          "wait_not_early", "wait_not_early_pending", "wait_not_early_reachable", "wait_prompt", "wait_only_shrinks", "gave_up_never_granted")]
                  + ["Ldlm.Table.run_inv", "Ldlm.Table.no_overtaking", "Ldlm.Table.queue_order", "Ldlm.Core.run_pu",
                     "Ldlm.Core.advanceTo_wait_not_early", "Ldlm.Core.advanceTo_wait_prompt"],
         streams=[CONC, SEQ],
@@ -125,7 +125,7 @@ PROPS = {
     ),
     "C04": dict(
         modules=[P + "C04", P + "C12"],
-        theorems=[P + "C04." + t for t in ("grant_arms_lease", "no_timeout_no_lease", "lease_not_early", "lease_not_early_held", "lease_prompt", "renew_restarts",
+        theorems=[P + "C04." + t for t in ("grant_arms_lease", "no_timeout_no_lease", "duration_fits_int64", "lease_not_early", "lease_not_early_held", "lease_prompt", "renew_restarts",
                                           "renew_requires_lease", "dead_key_inert", "expired_is_not_held", "expired_key_dead", "dead_key_stays_dead")]
                  + ["Ldlm.Core.advanceTo_keeps_later", "Ldlm.Core.advanceTo_prompt", "Ldlm.Props.C12.lease_units_pinned", "Ldlm.Core.expiry_kills", "Ldlm.Core.Dead.step"],
         streams=[SEQ, CONC],
